@@ -25,7 +25,7 @@ func register(p *Prop) { p.Assumptions = append(p.Assumptions, common...); Props
 func init() {
 	register(&Prop{
 		ID:    "C01",
-		Rules: []func(*core.Ctx){ROp, RStk, RBracket, REmptyIter, RSib, RMask, RCrawlPair, RRuneStr, REnumPos, RStackRel, REndZLatest},
+		Rules: []func(*core.Ctx){ROp, RStk, RBracket, REmptyIter, RSib, RMask, RCrawlPair, RRuneStr, REnumPos, RStackRel, REndZLatest, RCondUnwrap, RNoShortcut},
 		Explanation: "Static analysis of the bytecode contract between syntax/writer.go (emit sites), syntax/code.go (opcodeSize, opcodeBacktracks, constant blocks) and runner.go (executeDefault's switch): " +
 			"R-OP1 handler/size exists for every emitted opcode; R-OP2 operand/advance constants agree with opcodeSize; R-OP3 backtracking frame shape (push arity vs pop arity vs existence of Back/Back2 clauses, path-enumerated per clause on go/cfg); " +
 			"R-OP4 numeric identity NodeType==InstOp and family strides used by retyping arithmetic; R-OP5 debug tables; R-STK grouping-stack balance of every emitFragment bracket pair. " +
@@ -69,25 +69,25 @@ func init() {
 	})
 	register(&Prop{
 		ID:    "C02",
-		Rules: []func(*core.Ctx){RFunnel, RQuick, RQuickOmit, RQuickSame, RLiveOps, RWholeText, RRtlFilter, RFFFDFilter, ROrigin, RMask, RStepDecode, RTextEnd, RStartSent, RBoundDec},
+		Rules: []func(*core.Ctx){RFunnel, RQuick, RQuickOmit, RQuickSame, RLiveOps, RWholeText, RRtlFilter, RFFFDFilter, ROrigin, RMask, RStepDecode, RTextEnd, RStartSent, RBoundDec, RNoShortcut, RScanASCII},
 		Explanation: "All entry points reach the one scan funnel (R-FUNNEL, call graph); the capture-free quick program is active only where the returned match is merely nil-tested or read for position (R-QUICK, SSA def-use), and the liveness scan that builds it masks opcode flags (R-MASK); the left-to-right raw-string filter is never consulted for right-to-left programs (R-RTLFILTER, dominance); a filter candidate never becomes the \\G origin (R-ORIGIN, interprocedural taint). " +
 			"These are structural preconditions for the entry points to agree; that scan returns the same result for the same arguments, the index conversions and the Replace/Split folds are decided elsewhere or not at all.",
 	})
 	register(&Prop{
 		ID:    "C03",
-		Rules: []func(*core.Ctx){ROrigin, RMode, RMinLen, RRtlFilter, RFixedDistSib, RTableDom, RLmMin, RDirTrunc, RSentinel, RBumpWalk, RDeadCopy, RFwdOnly, RCaseBit, RLmAlt, RFailProp, RMinLenZero, RCiExact, RNoMatchExit, RLmStart, RGapKind, RSearchStep, RKeepLook, REndZLatest},
+		Rules: []func(*core.Ctx){ROrigin, RMode, RMinLen, RRtlFilter, RFixedDistSib, RTableDom, RLmMin, RDirTrunc, RSentinel, RBumpWalk, RDeadCopy, RFwdOnly, RCaseBit, RLmAlt, RFailProp, RMinLenZero, RCiExact, RNoMatchExit, RLmStart, RGapKind, RSearchStep, RKeepLook, REndZLatest, RRefZero, RSameHay},
 		Explanation: "R-ORIGIN (a candidate proposed by the accelerator never becomes the \\G origin: interprocedural taint from the filter result to scan's textstart), R-MODE (producer/consumer agreement on the find-mode record: every field a finder arm reads is assigned before the mode is set; accepted modes have a finder), R-MINLEN (the minimum-length fact is used only as a bound on the remaining length), R-RTLFILTER, R-TABLEDOM (every entry the Boyer-Moore builder records is within reach of the scanner's lookups: writer/reader guard agreement), R-LMMIN (the landmark-chain search continues from the minimal, not the greedy, end of a landmark). " +
 			"Structural conditions for the accelerator to be a pure accelerator. The arithmetic of each finder and the truth of the facts (C04) are NOT decided.",
 	})
 	register(&Prop{
 		ID:    "C05",
-		Rules: []func(*core.Ctx){RDirCtx, RAtomCtx, RAtomSucc, ROverlapNeg, RMinLenUse, RAtomFlags, ROptLoop, RXField, RAtomMerge, RAtomRep, RSelfShift, REndChild, RBoundSet, RDistinct, RAnchorSrc, REolNl, RLoopOnce, RRuneStr, RBalTransp, REndDir, REqSub},
+		Rules: []func(*core.Ctx){RDirCtx, RAtomCtx, RAtomSucc, ROverlapNeg, RMinLenUse, RAtomFlags, ROptLoop, RXField, RAtomMerge, RAtomRep, RSelfShift, REndChild, RBoundSet, RDistinct, RAnchorSrc, REolNl, RLoopOnce, RRuneStr, RBalTransp, REndDir, REqSub, RCondUnwrap},
 		Explanation: "R-DIRCTX (left-to-right-only reasoning about a Multi's first rune is confined to left-to-right context: local dominance by a direction test or a guarded-call-site fixpoint over the static call graph), R-ATOMCTX (ending-backtracking elimination is invoked only from the five contexts nothing can backtrack into), R-OPTLOOP (a loop's child is treated as following content only under M > 0). " +
 			"These are side conditions every rewrite must respect; the substance of the property (class disjointness, nullability, equality with the un-rewritten pattern) is NOT decided.",
 	})
 	register(&Prop{
 		ID:    "C04",
-		Rules: []func(*core.Ctx){RAcc, RAccCap, RNarrow, RAltMerge, ROptLoop, RNegChars, RDefault, RCompl, RNegFresh, RAltAll, RByteRune, RRuneCut, RMaxAsMin, RCatsToo, RScratch, RFailFirst, RFailProp, RLoopSib, RLookFact, RBufAlias, RDistAdd, RGapKind, RSetComplete, RDirTrunc},
+		Rules: []func(*core.Ctx){RAcc, RAccCap, RNarrow, RAltMerge, ROptLoop, RNegChars, RDefault, RCompl, RNegFresh, RAltAll, RByteRune, RRuneCut, RMaxAsMin, RCatsToo, RScratch, RFailFirst, RFailProp, RLoopSib, RLookFact, RBufAlias, RDistAdd, RGapKind, RSetComplete, RDirTrunc, RRefZero},
 		Explanation: "Shape conditions every prefix / set / length analysis must meet for what it publishes to be an over-approximation: R-ACC (accumulate-until-stop protocol on SSA paths), R-ACCCAP (a capped loop expansion reports 'fully processed' only through the cap), R-NARROW (the shared prefix of an alternation only shrinks), R-ALTMERGE (an offset is common to all branches only if every branch was merged), R-OPTLOOP (a loop's child is required only under M > 0), R-NEGCHARS (callers of GetSetChars consult IsNegated), R-DEFAULT (unknown node kinds yield 'know nothing'), R-COMPL (complement-of-one-character constructions guard each half by its own constant end), R-NEGFRESH (the negate flag is set only on sets created on the spot or known empty). " +
 			"That the recorded strings, sets and lengths are right for the pattern's language is a semantic property and is NOT decided.",
 	})
@@ -99,13 +99,13 @@ func init() {
 	})
 	register(&Prop{
 		ID:    "C16",
-		Rules: []func(*core.Ctx){RSub, RSubFirst, RBitmap, RCaseRecur, RRangeFlush, RCatTable, RNegChars, RFlipAdd, RNegFresh, RKeyInj, ROr20, RWordSib, RCopyAll, RUnionRet, RGapRune, RSetCodec, RCatsToo, RDialectSib, RCatPred, RRangePend, RTentative, RPosixASCII, RUnionNeg, RAnySub, RAddMono, RDistinct, REscLiteral, RNegClear, REnumPos, REqSub},
+		Rules: []func(*core.Ctx){RSub, RSubFirst, RBitmap, RCaseRecur, RRangeFlush, RCatTable, RNegChars, RFlipAdd, RNegFresh, RKeyInj, ROr20, RWordSib, RCopyAll, RUnionRet, RGapRune, RSetCodec, RCatsToo, RDialectSib, RCatPred, RRangePend, RTentative, RPosixASCII, RUnionNeg, RAnySub, RAddMono, RDistinct, REscLiteral, RNegClear, REnumPos, REqSub, RCatEq},
 		Explanation: "R-SUB (no observer or transformer of a class ignores its subtraction; canonicalize rewrites only under sub == nil; addSet / enumeration operands are tested), R-BITMAP (the ASCII fast path is charInSlow tabulated over exactly 0..127, guarded, never copied, never stale), R-CASERECUR (a subtraction is parsed with the same case flag), R-CATTABLE (a category name is accepted only with a table), R-NEGCHARS (callers of GetSetChars honour negation), R-FLIPADD (members are never added to a class after canonicalize has rewritten it in negated form without restoring the positive form first), R-NEGFRESH (negate is switched on only for sets created on the spot or known empty). " +
 			"Membership itself — range arithmetic, the lowercase tables, category evaluation order — is NOT decided.",
 	})
 	register(&Prop{
 		ID:    "C17",
-		Rules: []func(*core.Ctx){RSlot, RCapsKey, RCapNode, RSkipTaken, ROptStack, RIgnParen, RDigitAcc, RLazyBuf, RLazyFull, RNameOnce, RParserFresh, RNoAlias, RPrescanSib, ROptWrite, RNumCheck, RMapOK, RDigitName, RPrescanState},
+		Rules: []func(*core.Ctx){RSlot, RCapsKey, RCapNode, RSkipTaken, ROptStack, RIgnParen, RDigitAcc, RLazyBuf, RLazyFull, RNameOnce, RParserFresh, RNoAlias, RPrescanSib, ROptWrite, RNumCheck, RMapOK, RDigitName, RPrescanState, RNameStart, RTakeAll},
 		Explanation: "R-SLOT (group numbers reach slot indexes only through the number->slot maps, in the writer, the replacement data, GroupByNumber and initMatch; internal GroupByNumber callers pass numbers, not dense indexes), R-CAPNODE (every capture node created by the main parse accounts for its slot like the pre-scan does), R-SKIPTAKEN (a named group gets the next number that is not taken). " +
 			"That the pre-scan and the main parse assign the same numbers in every case, name ordering and duplicate-name rules are NOT decided.",
 	})
@@ -117,13 +117,13 @@ func init() {
 	})
 	register(&Prop{
 		ID:    "C19",
-		Rules: []func(*core.Ctx){RCodec, REscAll, REscLetters, RUnits, RRuneByte, RErrFallback, RKeyInj, RSelfShift, RTrunc, RRangeByte, RDirTrunc},
+		Rules: []func(*core.Ctx){RCodec, REscAll, REscLetters, RUnits, RRuneByte, RErrFallback, RKeyInj, RSelfShift, RTrunc, RRangeByte, RDirTrunc, RRuneErr, REscapeOne},
 		Explanation: "R-CODEC: the writer's decision tree (escape) and the reader's switch (scanCharEscape) are evaluated from the source and compared: named escapes pairwise, hex digit counts from the value interval and padding on each path against the reader's fixed widths, bare-backslash escapes against the reader's default arm, and `meta` against the parser's character-class table. R-ESCALL: Escape cannot bypass escape(). R-UNITS: byte offsets never become rune positions (taint from strings.Index* / range-string keys to []rune indexes and the parser position). " +
 			"That ^Escape(s)$ matches exactly s needs the parser and engine and is NOT decided.",
 	})
 	register(&Prop{
 		ID:    "C20",
-		Rules: []func(*core.Ctx){RSub, RSubFirst, RCaseRecur, RAsciiFold, RCiRef, RNegChars, RAddMono, RFoldSib, RLetterRange, ROr20, RCatIdent, RCopyAll, RCiFlag, RCaseBit, RNodeOpts, RUnionNeg, RLcTable, RAnySub, RCiExact, RFoldPair},
+		Rules: []func(*core.Ctx){RSub, RSubFirst, RCaseRecur, RAsciiFold, RCiRef, RNegChars, RAddMono, RFoldSib, RLetterRange, ROr20, RCatIdent, RCopyAll, RCiFlag, RCaseBit, RNodeOpts, RUnionNeg, RLcTable, RAnySub, RCiExact, RFoldPair, RFoldWalk},
 		Explanation: "R-SUB on the case transformers (case equivalences reach a class's subtraction), R-CASERECUR (a subtraction is parsed with the same case flag), R-ASCIIFOLD (ASCII-only ignore-case search helpers only on ASCII-tested needles), R-CIREF (reduce clears IgnoreCase on everything but backreferences; refmatch folds both sides alike), R-NEGCHARS. " +
 			"The invariance of match outcomes under case changes is NOT decided.",
 	})
@@ -135,7 +135,7 @@ func init() {
 	})
 	register(&Prop{
 		ID:    "C09",
-		Rules: []func(*core.Ctx){RRepConst, RRepCases, RRepID, RFoldExit, RCommitPos, RCompact, RLoopMatch, rDirFoldOnly, RSlot, RCapsKey, RCachePair, RCompactSib, RFoldSrc, RWholeText, RErrProp, RSplitStride, RRewindFirst, RDollarLit, RUnitCmp, RStartSent, RUnits},
+		Rules: []func(*core.Ctx){RRepConst, RRepCases, RRepID, RFoldExit, RCommitPos, RCompact, RLoopMatch, rDirFoldOnly, RSlot, RCapsKey, RCachePair, RCompactSib, RFoldSrc, RWholeText, RErrProp, RSplitStride, RRewindFirst, RDollarLit, RUnitCmp, RStartSent, RUnits, RNameStart},
 		Explanation: "R-REPCONST (encoder and decoder of replacement rules are the same affine map over equal constants), R-REPCASES (every special token has an arm in both expansion functions; the right-to-left expansion collects pieces last-to-first), R-COMPACT (balancing compaction precedes every expansion of the reused match; count discipline of the replace loops), R-DIRFOLD (Split and the replace drivers are direction-aware), R-SLOT (group numbers reach slots through the maps, including inside Split). " +
 			"That the pieces are concatenated with the right text in between, $-grammar ambiguities and identity of $& are NOT decided.",
 	})
